@@ -136,6 +136,23 @@ pub struct BlobTree {
 }
 
 impl BlobTree {
+    #[cfg(lsm_verif)]
+    #[doc(hidden)]
+    pub fn verif_resolve(
+        &self,
+        version: &Version,
+        key: &[u8],
+        vhandle: &crate::vlog::ValueHandle,
+    ) -> crate::Result<Option<crate::UserValue>> {
+        Accessor::new(&version.blob_files).get(
+            self.id(),
+            self.blobs_folder.as_path(),
+            key,
+            vhandle,
+            &self.index.config.cache,
+        )
+    }
+
     pub(crate) fn open(config: Config) -> crate::Result<Self> {
         use crate::file::{fsync_directory, BLOBS_FOLDER};
 
